@@ -187,7 +187,12 @@ func (P *Prog) LocalGuards(in ssa.Instruction) []Atom {
 	if fn == nil || len(fn.Blocks) == 0 {
 		return nil
 	}
-	return P.guardsBetween(fn.Blocks[0], in.Block(), in)
+	out := P.guardsBetween(fn.Blocks[0], in.Block(), in)
+	if site := helperSite(fn); site != nil && site.Parent() != fn {
+		out = dedupeAtoms(append(out, P.LocalGuards(site)...))
+		sort.Slice(out, func(i, j int) bool { return out[i].Key() < out[j].Key() })
+	}
+	return out
 }
 
 func (P *Prog) guardsBetween(from, to *ssa.BasicBlock, at ssa.Instruction) []Atom {
@@ -558,6 +563,15 @@ func (P *Prog) SuccessCond(fn *ssa.Function, idx int, want string, depth int) (a
 // parameters substituted by the actual arguments (depth-bounded).
 func (P *Prog) Guards(in ssa.Instruction, depth int) []Atom {
 	local := P.LocalGuards(in)
+	// `return f(x)` in a function with an error-like result: the return is a success return exactly when the
+	// call succeeded, i.e. it is equivalent to `err := f(x); if err != nil { return err }; return nil`
+	if ret, ok := in.(*ssa.Return); ok && ret.Parent() != nil {
+		if idx, _ := errIndex(ret.Parent().Signature); idx >= 0 && idx < len(ret.Results) {
+			if c, t := P.retClass(ret, idx); c == "unknown" && t != nil && (t.Op == "call" || t.Op == "invoke" || t.Op == "extract") {
+				local = append(append([]Atom{}, local...), Atom{T: &Term{Op: "call", Name: "isnil", Args: []*Term{t}}, Pos: true})
+			}
+		}
+	}
 	out := append([]Atom{}, local...)
 	if depth <= 0 {
 		return out
@@ -748,30 +762,60 @@ func phiBranchTarget(b, pred *ssa.BasicBlock) int {
 }
 
 func reachWithoutFromPred(start ipos, startPred *ssa.BasicBlock, target, avoid func(ssa.Instruction) bool, ok edgeFilter) (bool, ssa.Instruction, []*ssa.BasicBlock) {
+	// The traversal is interprocedural for helpers introduced by a refactoring (helperctx.go): a static call to a new
+	// helper descends into its body and resumes after the call at the helper's returns; a traversal that starts
+	// inside a new helper continues after the helper's context call site when it reaches a return.
 	type item struct {
-		b    *ssa.BasicBlock
-		pred *ssa.BasicBlock
-		from int
+		b     *ssa.BasicBlock
+		pred  *ssa.BasicBlock
+		from  int
+		stack []ipos // positions to resume at when the current helper returns
 	}
-	type key struct{ b, pred *ssa.BasicBlock }
+	type key struct {
+		b, pred *ssa.BasicBlock
+		from    int
+	}
 	parent := map[*ssa.BasicBlock]*ssa.BasicBlock{}
 	seen := map[key]bool{}
-	work := []item{{start.b, startPred, start.i}}
+	work := []item{{start.b, startPred, start.i, nil}}
 	first := true
+	steps := 0
 	for len(work) > 0 {
 		it := work[0]
 		work = work[1:]
-		if !first || it.from == 0 {
-			k := key{it.b, it.pred}
+		steps++
+		if steps > 200000 {
+			break
+		}
+		if !first {
+			k := key{it.b, it.pred, it.from}
 			if seen[k] {
 				continue
 			}
 			seen[k] = true
+		} else if it.from == 0 {
+			seen[key{it.b, it.pred, 0}] = true
 		}
 		first = false
 		blocked := false
+		suspended := false
 		for i := it.from; i < len(it.b.Instrs); i++ {
 			in := it.b.Instrs[i]
+			if ret, isRet := in.(*ssa.Return); isRet {
+				// return of a helper we descended into, or of a helper standing for its caller
+				if n := len(it.stack); n > 0 {
+					top := it.stack[n-1]
+					work = append(work, item{top.b, nil, top.i, it.stack[:n-1]})
+					suspended = true
+					break
+				}
+				if site := helperSite(ret.Parent()); site != nil {
+					p := instrIndex(site)
+					work = append(work, item{p.b, nil, p.i + 1, nil})
+					suspended = true
+					break
+				}
+			}
 			if avoid != nil && avoid(in) {
 				blocked = true
 				break
@@ -786,8 +830,27 @@ func reachWithoutFromPred(start ipos, startPred *ssa.BasicBlock, target, avoid f
 				}
 				return true, in, path
 			}
+			if c, isCall := in.(*ssa.Call); isCall && len(it.stack) < 3 {
+				if h := staticCallee(&c.Call); h != nil && h != it.b.Parent() && len(h.Blocks) > 0 && isNewHelperFn(h) {
+					onStack := false
+					for _, sp := range it.stack {
+						if sp.b.Parent() == h {
+							onStack = true
+						}
+					}
+					if !onStack {
+						if _, has := parent[h.Blocks[0]]; !has {
+							parent[h.Blocks[0]] = it.b
+						}
+						st := append(append([]ipos{}, it.stack...), ipos{it.b, i + 1})
+						work = append(work, item{h.Blocks[0], nil, 0, st})
+						suspended = true
+						break
+					}
+				}
+			}
 		}
-		if blocked {
+		if blocked || suspended {
 			continue
 		}
 		only := -1
@@ -801,11 +864,11 @@ func reachWithoutFromPred(start ipos, startPred *ssa.BasicBlock, target, avoid f
 			if ok != nil && !ok(it.b, i) {
 				continue
 			}
-			if !seen[key{s, it.b}] {
+			if !seen[key{s, it.b, 0}] {
 				if _, has := parent[s]; !has && s != start.b {
 					parent[s] = it.b
 				}
-				work = append(work, item{s, it.b, 0})
+				work = append(work, item{s, it.b, 0, it.stack})
 			}
 		}
 	}
@@ -821,7 +884,7 @@ func isReturn(in ssa.Instruction) bool { _, ok := in.(*ssa.Return); return ok }
 
 // Precedes: every path from entry to b executes a first (a dominates b at instruction level).
 func Precedes(a, b ssa.Instruction) bool {
-	fn := b.Parent()
+	fn := rootOf(b.Parent())
 	reach, _, _ := ReachWithout(fn, nil, func(x ssa.Instruction) bool { return x == b }, func(x ssa.Instruction) bool { return x == a }, nil)
 	return !reach
 }
